@@ -195,6 +195,10 @@ type Fault struct {
 	K     int    `json:"k,omitempty"`
 	Errno int    `json:"errno,omitempty"`
 	Count int    `json:"count,omitempty"`
+	// PerOpen (read faults): Nth / Count refer to the ordinal of the OPEN of the file (0-based, failed opens counted)
+	// whose descriptor the read goes through, not to the ordinal of the read call: every read through that
+	// descriptor fails. How many read calls the code needs per file is then no part of the fault's meaning.
+	PerOpen bool `json:"per_open,omitempty"`
 
 	seen int
 }
@@ -216,6 +220,8 @@ type state struct {
 	killHook func(KillInfo)
 	exitHook func(int)
 	nextFD   int
+	opens    map[string]int // path -> number of open-for-reading events so far
+	curOrd   int            // open ordinal of the descriptor a read event goes through (-1: none)
 }
 
 var st *state
@@ -224,7 +230,7 @@ var st *state
 func Mount(d *Disk, faults []Fault) {
 	fs2 := make([]Fault, len(faults))
 	copy(fs2, faults)
-	st = &state{disk: d, faults: fs2, fired: map[string]int{}}
+	st = &state{disk: d, faults: fs2, fired: map[string]int{}, opens: map[string]int{}, curOrd: -1}
 }
 
 // Unmount returns to pass-through.
@@ -318,7 +324,15 @@ func begin(op, path string, n int) (int, decision) {
 		if f.At >= 0 {
 			match = f.At == idx
 		} else {
-			if (f.Op == "" || f.Op == op) && (f.Path == "" || strings.Contains(path, f.Path)) {
+			if f.PerOpen {
+				if op == "read" && st.curOrd >= 0 && (f.Path == "" || strings.Contains(path, f.Path)) {
+					if f.Kind == Transient {
+						match = st.curOrd < f.Count
+					} else {
+						match = st.curOrd == f.Nth
+					}
+				}
+			} else if (f.Op == "" || f.Op == op) && (f.Path == "" || strings.Contains(path, f.Path)) {
 				if f.Kind == Transient {
 					match = f.seen < f.Count
 				} else {
@@ -573,6 +587,11 @@ func OpenFile(name string, flag int, perm fs.FileMode) (*File, error) {
 	if writing || flag&(os.O_CREATE|os.O_TRUNC) != 0 {
 		op = "open-w"
 	}
+	ord := -1
+	if op == "open-r" {
+		ord = st.opens[p]
+		st.opens[p]++
+	}
 	idx, dec := begin(op, p, 0)
 	if dec.kind == Fail {
 		return nil, end(idx, dec, pathErr("open", name, dec.errno))
@@ -608,7 +627,7 @@ func OpenFile(name string, flag int, perm fs.FileMode) (*File, error) {
 			n.MTime = nowNS()
 		}
 	}
-	f := &File{name: name, path: p, ino: n, flag: flag}
+	f := &File{name: name, path: p, ino: n, flag: flag, ord: ord}
 	return f, end(idx, dec, nil)
 }
 
@@ -622,6 +641,7 @@ type File struct {
 	off    int
 	closed bool
 	stdin  bool
+	ord    int // ordinal of the open-for-reading event that produced this descriptor
 }
 
 // Stdin replaces os.Stdin.
@@ -665,7 +685,9 @@ func (f *File) Read(b []byte) (int, error) {
 	if len(b) == 0 {
 		return 0, nil
 	}
+	st.curOrd = f.ord
 	idx, dec := begin("read", f.path, 0)
+	st.curOrd = -1
 	if dec.kind == Fail {
 		return 0, end(idx, dec, pathErr("read", f.name, dec.errno))
 	}
@@ -684,7 +706,9 @@ func (f *File) readAll() ([]byte, error) {
 		idx, dec := begin("read", f.path, 0)
 		return nil, end(idx, dec, pathErr("read", f.name, syscall.EISDIR))
 	}
+	st.curOrd = f.ord
 	idx, dec := begin("read", f.path, len(f.ino.Data))
+	st.curOrd = -1
 	if dec.kind == Fail {
 		return nil, end(idx, dec, pathErr("read", f.name, dec.errno))
 	}
@@ -1315,6 +1339,21 @@ func Hostname() (string, error) {
 		return os.Hostname()
 	}
 	return "simhost", nil
+}
+
+// Getpid / Getppid: process ids differ between runs of the same case; the simulated process always has the same ones.
+func Getpid() int {
+	if st == nil {
+		return os.Getpid()
+	}
+	return 4242
+}
+
+func Getppid() int {
+	if st == nil {
+		return os.Getppid()
+	}
+	return 4241
 }
 
 func Getuid() int {
